@@ -290,6 +290,30 @@ class NP:
             return vecs.SV(n.t, lambda i: SI(i), kind="i", arange=True)
         return _np.arange(n)
 
+    def linspace(self, start, stop, num=50, **kw):
+        """num evenly spaced samples over [start, stop]: first = start, last = stop (num >= 2), every sample between the two ends
+        (for defined finite ends).  num < 0 is a ValueError in NumPy: side obligation."""
+        if not (_sym(start) or _sym(stop) or isinstance(num, SI)):
+            return _np.linspace(start, stop, num, **kw)
+        if kw:
+            raise Unsupported("np.linspace keyword arguments")
+        c = cur()
+        a, b = SF.lift(start), SF.lift(stop)
+        m = num.t if isinstance(num, SI) else z3.IntVal(int(num))
+        if c.ghost.get("assume_sample_count_defined"):
+            c.assume(m >= 0)
+        else:
+            c.oblige("linspace.num_nonnegative", m >= 0, kind="side")
+        v = vecs.fresh_vec("linspace", m)
+        j = z3.Int("vcx_j")
+        e = v.at(j)
+        lo, hi = z3.If(a.r <= b.r, a.r, b.r), z3.If(a.r <= b.r, b.r, a.r)
+        fin = z3.And(z3.Not(a.nan), z3.Not(b.nan), NINF < a.r, a.r < PINF, NINF < b.r, b.r < PINF)
+        c.assume(z3.ForAll([j], z3.Implies(z3.And(0 <= j, j < m, fin), z3.And(z3.Not(e.nan), lo <= e.r, e.r <= hi)), patterns=[e.r]))
+        c.assume(z3.Implies(z3.And(m >= 1, fin), v.at(z3.IntVal(0)).r == a.r))
+        c.assume(z3.Implies(z3.And(m >= 2, fin), v.at(m - 1).r == b.r))
+        return v
+
     def broadcast_arrays(self, *xs):
         if any(isinstance(x, vecs.SV) for x in xs):
             return vecs.broadcast(xs)
